@@ -217,4 +217,17 @@ theorem addCanon_under_source {fs : FS} {sn names : List Lcov.Bytes} (hsn : ∀ 
     addCanon fs (some (render ⟨true, sn⟩)) (join names) = render ⟨true, sn ++ names⟩ := by
   simp [addCanon, push_render hsn hn hne, FS.realpath, hres]
 
+/-- a result map every key of which is retained -/
+theorem rewritePaths_map_ok {α : Type} (cfg : Cfg) (fs : FS) (l : List α) (key : α → Lcov.Bytes × Cov)
+    (g : α → Rewrite.Rec) (habs : ∀ s, cfg.sourceDir = some s → isAbsolute s = true)
+    (h : ∀ x ∈ l, rewriteKey cfg fs (key x) = .ok (some (g x))) :
+    rewritePaths cfg fs (l.map key) = .ok (l.map g) := by
+  have hc : collect ((l.map key).map (rewriteKey cfg fs)) = .ok (l.map g) := by
+    rw [List.map_map]
+    exact collect_map_ok _ g l fun x hx => h x hx
+  unfold rewritePaths
+  cases hs : cfg.sourceDir with
+  | none => exact hc
+  | some s => simp only [habs s hs, if_true]; exact hc
+
 end Grcov.Cli
